@@ -840,6 +840,31 @@ pub fn check_case(ctx: &mut Ctx, case: &Case, cfg: &Cfg, props: &[String], want_
                         res.viols.push(Viol { prop: "C09", clause: "input_endings", detail: format!("{}{c09_site}", first_diff(&out, o3)) });
                     }
                 }
+                // mixed endings: some line breaks CRLF, the others LF (two interleavings)
+                for phase in 0..2usize {
+                    let mut mixed = String::with_capacity(text.len() + 16);
+                    let mut k = phase;
+                    for ch in text.chars() {
+                        if ch == '\n' {
+                            if k % 2 == 0 {
+                                mixed.push('\r');
+                            }
+                            k += 1;
+                        }
+                        mixed.push(ch);
+                    }
+                    if mixed == *text {
+                        continue;
+                    }
+                    let r4 = ctx.run(&mixed, cfg, &[], false);
+                    let d = res.session.call(&r4, wf);
+                    res.session.rel("lein", a, d);
+                    if let Ok(o4) = &r4.out {
+                        if *o4 != out {
+                            res.viols.push(Viol { prop: "C09", clause: "input_endings", detail: format!("(mixed CRLF / LF input) {}{c09_site}", first_diff(&out, o4)) });
+                        }
+                    }
+                }
             }
         }
     }
